@@ -207,6 +207,13 @@ def tarExtractR (fs : FS) (root : P) (mask : Nat) (es : List Entry) : FS × Bool
 def zipExtractR (fs : FS) (root : P) (mask : Nat) (es : List Entry) : FS × Bool :=
   extractWith (fun fs e => zipOneR fs root mask e) fs es
 
+/-- tar / zip `ExtractWithMask(r, dst, mask)` with the destination AS THE CALLER SPELLS IT (relative, unclean, …) and
+    the working directory of the process: `root, err := filepath.Abs(dst)`, then the loop -/
+def tarExtractWithMaskAt (fs : FS) (cwd : P) (dst : List Nat) (mask : Nat) (es : List Entry) : FS × Bool :=
+  tarExtractR fs (absPath cwd dst) mask es
+def zipExtractWithMaskAt (fs : FS) (cwd : P) (dst : List Nat) (mask : Nat) (es : List Entry) : FS × Bool :=
+  zipExtractR fs (absPath cwd dst) mask es
+
 /-! ### the exported wrappers (as in `Model/Extract.lean`, over the resolving loops) -/
 
 def tarExtractDefaultR (fs : FS) (root : P) (es : List Entry) : FS × Bool := tarExtractR fs root defaultMask es
